@@ -79,6 +79,10 @@ func NewIngressConverter(options *convtypes.ConverterOptions, haproxy haproxy.Co
 		backendAnnotations: map[*hatypes.Backend]*annotations.Mapper{},
 		ingressClasses:     map[string]*ingressClassConfig{},
 	}
+	// The gateway converter runs before the ingress one, and partial syncs
+	// do not update globals, so apply the cross namespace permissions of
+	// the current global config as soon as they are known.
+	annotations.UpdateDynamicConfig(options, c.globalConfig)
 	c.readDefaultCertificate()
 	return c
 }
